@@ -40,12 +40,14 @@ def post(cases, rep, pool):
     for ctx, body in LEN_CTX.items():
         for e, v in LEN_VALUES:
             for cs in ("N", "N%"):
-                a = "CONST %s = %s\r\n" % (cs, e) + body % "N"
-                b_ = body % str(v)
-                if ctx == "sub":
-                    # the constant of the module seen from the SUB, and a constant of the SUB itself
-                    pairs.append((ctx + "-local", (body % "N").replace("  DIM S", "  CONST %s = %s\r\n  DIM S" % (cs, e)), b_, e))
-                pairs.append((ctx, a, b_, e))
+                # the length is named bare and with the INTEGER suffix
+                for use in ("N", "N%"):
+                    a = "CONST %s = %s\r\n" % (cs, e) + body.replace("%s", use)
+                    b_ = body % str(v)
+                    if ctx == "sub":
+                        # the constant of the module seen from the SUB, and a constant of the SUB itself
+                        pairs.append((ctx + "-local", body.replace("%s", use).replace("  DIM S", "  CONST %s = %s\r\n  DIM S" % (cs, e)), b_, e))
+                    pairs.append((ctx, a, b_, e))
     ra = pool.map([{"op": "run", "text": a, "budget": 100000} for _, a, _, _ in pairs], timeout=60)
     rb = pool.map([{"op": "run", "text": b_, "budget": 100000} for _, _, b_, _ in pairs], timeout=60)
     for (ctx, a, b_, e), x, y in zip(pairs, ra, rb):
